@@ -847,6 +847,12 @@ def dom_conds(body, slicer, b):
     out = []
     for (atom, label, p) in raw:
         out.append((atom, label, p))
+        if isinstance(label, tuple) and label and label[0] == "else" and len(label) > 1 and len(label[1]) == 1 and isinstance(label[1][0], str):
+            # the catch-all edge of `let Some(v) = merged else { .. }`: the one remaining variant
+            for c in _variant_alternative_conds(body, slicer, p, label[1][0]):
+                if c not in out:
+                    out.append(c)
+            continue
         if isinstance(label, str):
             # `match merged { Some(v) => .. }` where `merged` was assigned `Some(..)` at exactly one place (the others assign other
             # variants): what held where that `Some` was built holds here (a helper `fn f() -> Option<T>` inlined at its call)
@@ -1109,6 +1115,17 @@ def fold_int(t):
         if x[0] == "agg" and x[1] == "array":
             return len(x[4])
     return None
+
+
+def rewrap(t):
+    """`Some(v)` where v is the payload of `x` bound by `Some(v) = x` is x itself (inside compared operands)"""
+    def f(n):
+        if n[0] == "agg" and n[3] in ("Some", "Ok") and len(n[4]) == 1 and (n[2] or "").endswith(("option::Option", "result::Result")):
+            o = strip(n[4][0])
+            if o[0] == "field" and o[1][0] == "downcast" and o[1][2] == n[3] and o[2] in (0, "0"):
+                return o[1][1]
+        return None
+    return rebuild(t, f)
 
 
 def canon_value(t, depth=0):
